@@ -183,6 +183,32 @@ fn op_platt(em: &mut Em, a: f64, b: f64, xs: Vec<f64>) {
     }
 }
 
+/// `platt_predict::<f32>`: `a*x+b` evaluated in f32, no narrowing cast
+fn op_platt32(em: &mut Em, a: f32, b: f32, xs: Vec<f32>) {
+    let op = format!("platt32 a={} b={} xs={}", hex32(a), hex32(b), list(xs.iter(), |x| hex32(*x)));
+    let finite = a.is_finite() && b.is_finite() && xs.iter().all(|x| x.is_finite() && (a * x + b).is_finite());
+    let class = format!("platt32:a={}", if a > 0.0 { "pos" } else if a < 0.0 { "neg" } else { "zero" });
+    let body = |ctx: &mut Ctx| {
+        let ps: Vec<Pr> = xs.iter().map(|x| platt_predict(*x, a, b)).collect();
+        for (x, p) in xs.iter().zip(ps.iter()) {
+            ctx.require(**p >= 0.0 && **p <= 1.0, "probability_in_unit_interval", &class, || format!("x={} -> {}", x, **p));
+        }
+        let mut idx: Vec<usize> = (0..xs.len()).collect();
+        idx.sort_by(|i, j| (a * xs[*i] + b).partial_cmp(&(a * xs[*j] + b)).unwrap());
+        for w in idx.windows(2) {
+            let (t0, t1) = (a * xs[w[0]] + b, a * xs[w[1]] + b);
+            let slack = 4.0 * f32::EPSILON * *ps[w[0]];
+            ctx.require(t0 == t1 && ps[w[0]] == ps[w[1]] || *ps[w[1]] <= *ps[w[0]] + slack, "monotone_sigmoid", &class, || format!("t={} -> {}, t={} -> {}", t0, *ps[w[0]], t1, *ps[w[1]]));
+        }
+        format!("ok {}", list(ps.iter(), |p| show_pr(*p)))
+    };
+    if finite {
+        em.case_valid(op, &class, body)
+    } else {
+        em.case(op, body)
+    }
+}
+
 pub fn hexrows(a: &Array2<f64>) -> String {
     list2(a.rows().into_iter().map(|r| r.to_vec()), |x: f64| hex64(x))
 }
@@ -712,6 +738,10 @@ fn gen_platt(em: &mut Em, rng: &mut Rng) {
             _ => (rng.unit() - 0.5) * 20.0,
         })
         .collect();
+    if rng.chance(1, 4) {
+        // the f32 instantiation on the same numbers (rounded to f32 first)
+        op_platt32(em, a as f32, b as f32, xs.iter().map(|x| *x as f32).collect());
+    }
     op_platt(em, a, b, xs);
 }
 
@@ -735,6 +765,8 @@ pub fn run(em: &mut Em, rng: &mut Rng) {
     // the boundary values of the sigmoid
     op_platt(em, 1.0, 0.0, vec![0.0, -0.0, 1e-30, -1e-30, 88.0, 89.0, 104.0, -104.0, 1e30, -1e30, 3.5e38, -3.5e38]);
     op_platt(em, -1.0, 0.0, vec![0.0, 17.0, -17.0, 87.5, -87.5]);
+    op_platt32(em, 1.0, 0.0, vec![0.0, -0.0, 1e-30, -1e-30, 88.0, 89.0, 104.0, -104.0, 1e30, -1e30, 3.0e38, -3.0e38]);
+    op_platt32(em, -1.0, 0.0, vec![0.0, 17.0, -17.0, 87.5, -87.5, f32::NAN]);
     op_platt(em, 1.0, 0.0, vec![f64::NAN]);
     op_platt(em, 1.0, 0.0, vec![f64::INFINITY, f64::NEG_INFINITY]);
     for _ in 0..120 * scale {
